@@ -32,6 +32,8 @@ def _cal(lib, kind):
         return None
     if kind == "poly":
         return K.PolynomialCalibrator([K.PolynomialCoefficient(-2.5, 0), K.PolynomialCoefficient(0.5, 1), K.PolynomialCoefficient(3.0, 2)])
+    if kind == "poly-fine":      # coefficients that need all 17 significant digits / an exponent to survive being written and read back
+        return K.PolynomialCalibrator([K.PolynomialCoefficient(0.1 + 0.2, 0), K.PolynomialCoefficient(1e-12, 1), K.PolynomialCoefficient(12345678.901234567, 2)])
     _, order, ex, *tie = kind.split("-")
     if tie:     # a step: two points with the same raw coordinate, the calibrated value stepping DOWN (stored order must survive a round trip)
         return K.SplineCalibrator([K.SplinePoint(0.0, 0.0), K.SplinePoint(10.0, 5.0), K.SplinePoint(10.0, 1.0), K.SplinePoint(20.0, 2.0)],
@@ -95,7 +97,7 @@ def subject(name, dims):
 
 
 @subject("integer", [("size", [3, 8, 16]), ("encoding", ["unsigned", "signed", "twosComplement"]),
-                     ("order", ["mostSignificantByteFirst", "leastSignificantByteFirst"]), ("default", ["none", "poly", "spline-0-F", "spline-1-T", "spline-0-T-tie", "spline-1-F-tie"]),
+                     ("order", ["mostSignificantByteFirst", "leastSignificantByteFirst"]), ("default", ["none", "poly", "spline-0-F", "spline-1-T", "spline-0-T-tie", "spline-1-F-tie", "poly-fine"]),
                      ("context", ["none", "one-cmp", "list+bool"]), ("unit", [None, "m/s"])])
 def _integer(lib, c):
     enc = lib.encodings.IntegerDataEncoding(c["size"], c["encoding"], byte_order=c["order"], default_calibrator=_cal(lib, c["default"]),
